@@ -7,11 +7,13 @@
    variant sets the representations come back in row-major order of the Variants
    axes, and incomplete or overlapping variant coverage is refused at write time.
    Re-serializing what was read and reading it again reaches a byte-identical
-   fixpoint."  (the fixpoint is claimed for bundles without multi-key
-   Variant-Key entries)
+   fixpoint."  (the fixpoint is claimed, and proved - fixpoint_variants,
+   cycle_fixpoint_variants -, for bundles without multi-key Variant-Key entries;
+   with a multi-key entry it fails: fixpoint_needs_single_keys)
 
    Statements only; proofs live in Proofs/Variants.v, Proofs/BundleRoundtripRows.v and
-   Proofs/BundleRoundtrip*.v.  Model = Model/Bundle.v (b_write = Bundle.WriteTo,
+   Proofs/BundleRoundtrip*.v (the variant-set fixpoint in
+   Proofs/BundleRoundtripVariants.v).  Model = Model/Bundle.v (b_write = Bundle.WriteTo,
    b_read = bundle.Read, x509.ParseCertificate a parameter x509_ok).
 
    The writer refuses what the reader refuses (Response.EncodeHeader: status outside
@@ -45,7 +47,8 @@ From WP Require Import Spec.Cbor Spec.Bundle.
 From WP Require Import Proofs.BaseLemmas Proofs.Variants Proofs.BundleWriteBasics Proofs.BundleWriteForm
   Proofs.BundleWriteWF Proofs.BundleWriteCases Proofs.BundleRoundtripRows Proofs.BundleRoundtripResp
   Proofs.BundleWriteOk Proofs.BundleRoundtripMeta Proofs.BundleRoundtripRead Proofs.BundleRoundtripSig
-  Proofs.BundleRoundtrip Proofs.BundleRoundtripNorm Proofs.BundleRoundtripIdem.
+  Proofs.BundleRoundtrip Proofs.BundleRoundtripNorm Proofs.BundleRoundtripIdem
+  Proofs.BundleRoundtripVariants.
 Open Scope N_scope.
 
 (* ======================= Variants: row-major numbering ============================ *)
@@ -309,14 +312,12 @@ Theorem cycle_fixpoint : forall x509_ok b bs bs2 n,
 Proof. exact BundleRoundtripIdem.cycle_fixpoint. Qed.
 Print Assumptions cycle_fixpoint.
 
-(* PARTIAL.  Full statement (b1 variant sets without multi-key Variant-Key entries):
-     b_write b = Ok bs -> residual b = true -> no_multi_key b -> ... ->
-     norm (norm b) = norm b /\ exists bs2, b_write (norm b) = Ok bs2 /\ b_read bs2 = Ok (norm b).
-   Proved here with norm (norm b) = norm b and the second write as hypotheses (they
-   are discharged by computation in the examples below; for every-URL-once bundles
-   the first is norm_idempotent_single).  Missing: that entriesInPossibleKeyOrder of
-   an already row-major single-key group is the identity, and that hv_variants /
-   hv_vkey survive xnorm for the members of such a group. *)
+(* The conditional form, kept for reference: it takes norm (norm b) = norm b and the
+   second write as hypotheses.  Both are THEOREMS now for every written bundle whose
+   repeated URLs carry one Variant-Key per exchange (norm_idempotent_variants,
+   norm_writable_variants); the full statement is fixpoint_variants below, its
+   cycle form cycle_fixpoint_variants.  (Still of use for bundles with multi-key
+   entries whose normal form happens to be writable.) *)
 Theorem fixpoint_partial : forall x509_ok b bs2,
   residual x509_ok b = true -> norm (norm b) = norm b ->
   b_write (norm b) = Ok bs2 -> lenN bs2 < two63 ->
@@ -328,6 +329,85 @@ Proof.
   apply BundleRoundtripNorm.residual_norm. exact W.
 Qed.
 Print Assumptions fixpoint_partial.
+
+(* ======================= the fixpoint with b1 variant sets ============================ *)
+(* (1) entriesInPossibleKeyOrder of an already row-major group is the identity: feed
+   its result (entries with one Variant-Key each) to it again and the same list comes
+   out.  vvf / vkf read the Variants / Variant-Key value off an entry. *)
+Theorem entries_order_row_major_id : forall (A : Type) (vvf vkf : A -> bytes) (es l : list A),
+  entries_in_possible_key_order (map (fun e => (vvf e, vkf e, e)) es) = Ok l ->
+  Forall (fun e => exists k, parse_list_of_string_lists (vkf e) = Ok [k]) es ->
+  entries_in_possible_key_order (map (fun e => (vvf e, vkf e, e)) l) = Ok l.
+Proof. exact @BundleRoundtripVariants.eipko_row_major_id. Qed.
+Print Assumptions entries_order_row_major_id.
+
+(* (2) a Variants / Variant-Key field that Header.Get finds (non-empty joined value under
+   the canonical spelling) is found with the same value after normalisation.  The
+   premise is needed: ex_odd_spelling below. *)
+Theorem variants_survive_xnorm : forall x,
+  xwritable x = true ->
+  (hv_variants x <> [] -> hv_variants (xnorm x) = hv_variants x) /\
+  (hv_vkey x <> [] -> hv_vkey (xnorm x) = hv_vkey x).
+Proof. exact BundleRoundtripVariants.hv_survive_xnorm. Qed.
+Print Assumptions variants_survive_xnorm.
+
+(* (1) + (2) for one URL group of a written bundle: the normalised row is its own row *)
+Theorem row_of_norm_row : forall b bs g r,
+  b_write b = Ok bs -> variant_keys_single b = true ->
+  In g (g_groups bx_url (b_exchanges b)) -> g_row hv_variants hv_vkey (b_ver b) g = Ok r ->
+  exists vv, g_row hv_variants hv_vkey (b_ver b) (fst g, map xnorm (snd r))
+             = Ok (fst g, vv, map xnorm (snd r)).
+Proof. exact BundleRoundtripVariants.row_of_norm_row. Qed.
+Print Assumptions row_of_norm_row.
+
+(* variant_keys_single b (boolean): every exchange whose URL occurs more than once
+   carries exactly one Variant-Key.  single_keys b (every exchange does) implies it. *)
+Theorem single_keys_variant : forall b, single_keys b -> variant_keys_single b = true.
+Proof. exact BundleRoundtripVariants.single_keys_variant. Qed.
+Print Assumptions single_keys_variant.
+
+Theorem norm_idempotent_variants : forall b bs,
+  b_write b = Ok bs -> variant_keys_single b = true -> norm (norm b) = norm b.
+Proof. exact BundleRoundtripVariants.norm_idempotent_variants. Qed.
+Print Assumptions norm_idempotent_variants.
+
+(* what was read can be written again *)
+Theorem norm_writable_variants : forall b bs,
+  b_write b = Ok bs -> variant_keys_single b = true -> exists bs2, b_write (norm b) = Ok bs2.
+Proof. exact BundleRoundtripVariants.norm_writable_variants. Qed.
+Print Assumptions norm_writable_variants.
+
+(* FULL fixpoint statement (all versions; b1 URL groups may be variant sets) *)
+Theorem fixpoint_variants : forall x509_ok b bs,
+  b_write b = Ok bs -> lenN bs < two63 -> residual x509_ok b = true -> single_keys b ->
+  b_read x509_ok bs = Ok (norm b) /\ norm (norm b) = norm b /\
+  exists bs2, b_write (norm b) = Ok bs2 /\
+              (lenN bs2 < two63 -> b_read x509_ok bs2 = Ok (norm b)).
+Proof. exact BundleRoundtripVariants.fixpoint_variants. Qed.
+Print Assumptions fixpoint_variants.
+
+(* the same under the weaker, boolean hypothesis (URLs occurring once need no Variant-Key) *)
+Theorem fixpoint_variants_multi : forall x509_ok b bs,
+  b_write b = Ok bs -> lenN bs < two63 -> residual x509_ok b = true ->
+  variant_keys_single b = true ->
+  b_read x509_ok bs = Ok (norm b) /\ norm (norm b) = norm b /\
+  exists bs2, b_write (norm b) = Ok bs2 /\
+              (lenN bs2 < two63 -> b_read x509_ok bs2 = Ok (norm b)).
+Proof. exact BundleRoundtripVariants.fixpoint_variants_gen. Qed.
+Print Assumptions fixpoint_variants_multi.
+
+(* every further write/read cycle reproduces (bs2, norm b) *)
+Theorem cycle_fixpoint_variants : forall x509_ok b bs,
+  b_write b = Ok bs -> lenN bs < two63 -> residual x509_ok b = true ->
+  variant_keys_single b = true ->
+  cycle x509_ok b = Some (bs, norm b) /\
+  exists bs2, b_write (norm b) = Ok bs2 /\
+    (lenN bs2 < two63 ->
+     forall n, Nat.iter n (fun st => match st with Some (_, c) => cycle x509_ok c | None => None end)
+                        (cycle x509_ok (norm b))
+               = Some (bs2, norm b)).
+Proof. exact BundleRoundtripVariants.cycle_fixpoint_variants. Qed.
+Print Assumptions cycle_fixpoint_variants.
 
 (* ==== examples ========================================================================== *)
 Definition all_ok (_ : bytes) : bool := true.
@@ -467,6 +547,81 @@ Example ex_multi_key :
   residual all_ok ex_multi = true /\
   map bx_body (b_exchanges (read_of (write_of ex_multi))) = [s2b "GZ"; s2b "ENBR"; s2b "GZ"; s2b "FRBR"] /\
   b_write (read_of (write_of ex_multi)) = Err.
+Proof. vm_compute. repeat split. Qed.
+
+(* the hypothesis is needed: with the multi-key entry the second write is refused *)
+Theorem fixpoint_needs_single_keys :
+  exists b bs, b_write b = Ok bs /\ lenN bs < two63 /\ residual all_ok b = true /\
+    variant_keys_single b = false /\ b_read all_ok bs = Ok (norm b) /\ b_write (norm b) = Err.
+Proof.
+  exists ex_multi.
+  destruct (b_write ex_multi) as [bs| | |] eqn:E; try (vm_compute in E; discriminate).
+  exists bs. split; [reflexivity|]. vm_compute in E. inversion E; subst bs.
+  repeat split; vm_compute; reflexivity.
+Qed.
+Print Assumptions fixpoint_needs_single_keys.
+
+(* the hypotheses of fixpoint_variants_multi / cycle_fixpoint_variants hold of ex_b1
+   (2x2 variant grid, shuffled, plus a URL without Variant-Key), and the second
+   serialisation is small too *)
+Example ex_variants_hyps :
+  (exists bs, b_write ex_b1 = Ok bs /\ lenN bs < two63) /\ residual all_ok ex_b1 = true /\
+  variant_keys_single ex_b1 = true /\
+  (exists bs2, b_write (norm ex_b1) = Ok bs2 /\ lenN bs2 < two63).
+Proof.
+  assert (W : forall b, (match b_write b with Ok bs => lenN bs <? two63 | _ => false end) = true ->
+                        exists bs, b_write b = Ok bs /\ lenN bs < two63).
+  { intros b H. destruct (b_write b) as [bs| | |]; try discriminate. exists bs.
+    split; [reflexivity|apply N.ltb_lt; exact H]. }
+  split; [apply W; vm_compute; reflexivity|]. split; [vm_compute; reflexivity|].
+  split; [vm_compute; reflexivity|apply W; vm_compute; reflexivity].
+Qed.
+
+(* the theorems applied to ex_b1: no computation of the cycle is needed *)
+Example ex_b1_fixpoint_by_theorem :
+  norm (norm ex_b1) = norm ex_b1 /\
+  exists bs2, b_write (norm ex_b1) = Ok bs2 /\
+    forall n, Nat.iter n (fun st => match st with Some (_, c) => cycle all_ok c | None => None end)
+                       (cycle all_ok (norm ex_b1))
+              = Some (bs2, norm ex_b1).
+Proof.
+  destruct ex_variants_hyps as [[bs [Hw L]] [W [K [bs2' [H2' L2']]]]].
+  destruct (cycle_fixpoint_variants all_ok ex_b1 bs Hw L W K) as [_ [bs2 [H2 C]]].
+  split; [apply (norm_idempotent_variants ex_b1 bs Hw K)|].
+  exists bs2. split; [exact H2|]. apply C. rewrite H2' in H2. inversion H2; subst bs2. exact L2'.
+Qed.
+
+(* ... and those of fixpoint_variants (every exchange with one Variant-Key) of this one:
+   the same grid and a second URL whose single exchange carries a Variant-Key too *)
+Definition ex_b1v : bundle :=
+  {| b_ver := BV1; b_primary := Some (s2b "https://example.com/"); b_manifest := None; b_sigs := None;
+     b_exchanges := [ vx "https://example.com/" "fr;br" "FRBR";
+                      vx "https://example.com/only" "fr;gzip" "ONLY";
+                      vx "https://example.com/" "en;gzip" "ENGZ";
+                      vx "https://example.com/" "fr;gzip" "FRGZ";
+                      vx "https://example.com/" "en;br" "ENBR" ];
+     b_taint := false |}.
+Example ex_single_keys_hyps :
+  (exists bs, b_write ex_b1v = Ok bs /\ lenN bs < two63) /\ residual all_ok ex_b1v = true /\
+  single_keys ex_b1v /\
+  map bx_body (b_exchanges (norm ex_b1v)) = [s2b "ENGZ"; s2b "ENBR"; s2b "FRGZ"; s2b "FRBR"; s2b "ONLY"].
+Proof.
+  split.
+  { destruct (b_write ex_b1v) as [bs| | |] eqn:E; try (vm_compute in E; discriminate).
+    exists bs. split; [reflexivity|]. vm_compute in E. inversion E; subst bs. vm_compute. reflexivity. }
+  split; [vm_compute; reflexivity|]. split; [|vm_compute; reflexivity].
+  unfold single_keys. cbn [b_exchanges ex_b1v].
+  repeat (apply Forall_cons; [eexists; vm_compute; reflexivity|]). apply Forall_nil.
+Qed.
+
+(* why variants_survive_xnorm has its premise: a field spelled "VARIANTS" is invisible
+   to Header.Get("Variants") in what was handed to the writer and visible in what the
+   reader returns (it canonicalises the names).  Harmless for the fixpoint: such an
+   exchange cannot be a member of a variant set the writer accepts. *)
+Example ex_odd_spelling :
+  let x := {| bx_url := s2b "https://example.com/"; bx_status := 200%Z;
+              bx_hdr := [hd1 "VARIANTS" ex_vv]; bx_body := [] |} in
+  xwritable x = true /\ hv_variants x = [] /\ hv_variants (xnorm x) = s2b ex_vv.
 Proof. vm_compute. repeat split. Qed.
 
 (* ==== the writer refuses what the reader refuses ======================================== *)
